@@ -87,6 +87,9 @@ type Program struct {
 	Vars  []VarDecl `json:"vars,omitempty"`
 	Stmts []Stmt    `json:"stmts,omitempty"`
 	Style int       `json:"style,omitempty"` // 0: multi-line, 1: compact
+	// Trailer is a comment printed after the last statement (a script may end in a `//` line
+	// comment, whose terminating newline is then the last byte of the text)
+	Trailer string `json:"trailer,omitempty"`
 }
 
 // Inputs of one execution; balances are decimal strings so that the case is
@@ -390,6 +393,9 @@ func (prog Program) Print() Printed {
 	}
 	for i := range prog.Stmts {
 		p.stmt(&prog.Stmts[i])
+	}
+	if prog.Trailer != "" {
+		p.w(prog.Trailer + "\n")
 	}
 	return Printed{Text: p.sb.String(), Spans: p.spans}
 }
